@@ -263,6 +263,25 @@ def c07(full, in_scope, applied):
     return out
 
 
+def overlap_free(full):
+    """No two operations of non-zero length that share a qubit channel overlap in time (read off the observation)."""
+    ops, comps, t, ct, dur, start = parts(full)
+    if ops is None or t is None or len(t) != len(ops):
+        return False
+    items = []
+    for o, x in zip(ops, t):
+        if x[3] > 0:
+            items.append((x[1], x[2], o["l"][1]))
+    items.sort(key=lambda z: z[0])
+    for a in range(len(items)):
+        for b in range(a + 1, len(items)):
+            if items[b][0] >= items[a][1]:
+                break
+            if any(p[0] == q[0] and (p[1] == q[1] or p[1] == "ALL" or q[1] == "ALL") for p in items[a][2] for q in items[b][2]):
+                return False
+    return True
+
+
 def c07_monotone(full, overlap_free):
     out = []
     acq = full.get("ACQ")
